@@ -452,6 +452,65 @@ def Config.runEdge (c : Config α) (source : Nat) (target : Option Nat) (sched :
               | .error k => .error k
               | .ok routes => .ok { trees := r.trees, routes := routes, iterations := r.iterations + 2 }
 
+/-! ### `a_star_algorithm::run_a_star_edge_oriented` + `backtrack::edge_oriented_route`
+
+The edge-oriented wrapper inside `a_star_algorithm.rs`.  `SearchAlgorithm` has not called it since the
+repair of the edge-oriented route (its vertex-keyed tree cannot hold a route that passes the
+destination edge's head, or the origin edge's tail, before the end); it is still public. -/
+
+/-- `run_a_star_edge_oriented` ↦ (tree, number of tree entries, iterations) -/
+def Config.runAStarEdge (c : Config α) (source : Nat) (target : Option Nat) (sched : List Nat) :
+    Except ErrKind ((Nat → Option (Branch α)) × Nat) :=
+  match c.edges[source]? with
+  | none => .error .network
+  | some e1 =>
+    let srcBr : Branch α := { terminal := e1.src, edge := source, access := zero, traversal := zero,
+                              state := initialState c.feats }
+    match target with
+    | none =>
+      match runAStar c.inst e1.dst none sched with
+      | .error k => .error k
+      | .ok s =>
+        .ok ((match s.sol e1.dst with | some _ => s.sol | none => upd s.sol e1.dst srcBr), s.iters + 1)
+    | some tgt =>
+      match c.edges[tgt]? with
+      | none => .error .network
+      | some e2 =>
+        if source = tgt then .ok (fun _ => none, 0)
+        else if e1.dst = e2.src then
+          let fwd : Config α := { c with reverse := false }
+          match edgeTraversal fwd source none (initialState c.feats) with
+          | .error k => .error k
+          | .ok (ac1, tc1, st1) =>
+            match edgeTraversal fwd tgt (some source) st1 with
+            | .error k => .error k
+            | .ok (ac2, tc2, st2) =>
+              let b1 : Branch α := { terminal := e1.src, edge := source, access := ac1, traversal := tc1, state := st1 }
+              let b2 : Branch α := { terminal := e2.src, edge := tgt, access := ac2, traversal := tc2, state := st2 }
+              .ok (upd (upd (fun _ => none) e2.dst b2) e1.dst b1, 1)
+        else
+          match runAStar c.inst e1.dst (some e2.src) sched with
+          | .error k => .error k
+          | .ok s =>
+            if s.solSize = 0 then .error .noPath
+            else
+              match s.sol e2.src with
+              | none => .error .internal
+              | some fin =>
+                let dstBr : Branch α := { terminal := e2.src, edge := tgt, access := zero, traversal := zero,
+                                          state := fin.state }
+                let t1 := match s.sol e1.dst with | some _ => s.sol | none => upd s.sol e1.dst srcBr
+                let t2 := match t1 e2.dst with | some _ => t1 | none => upd t1 e2.dst dstBr
+                .ok (t2, s.iters + 2)
+
+/-- `backtrack::edge_oriented_route(source, target, tree, graph)`: from the destination edge's head
+back to the origin edge's tail (`fuel`: more than the number of tree entries) -/
+def Config.edgeOrientedRoute (c : Config α) (source target : Nat) (tree : Nat → Option (Branch α)) (fuel : Nat) :
+    Except ErrKind (List (Branch α)) :=
+  match c.edges[source]?, c.edges[target]? with
+  | some e1, some e2 => backtrack e1.src e2.dst tree fuel
+  | _, _ => .error .network
+
 end
 
 end Compass
